@@ -147,6 +147,9 @@ class Ctx:
                 self.count("disagree:" + op)
             if isinstance(r, dict) and "crash" in r:
                 self.pfails.append(("crash:" + op, r["crash"], op, args, r))
+            if isinstance(r, dict) and r.get("error") in ("undumpable", "op-returned-null"):
+                # the operation's JSON result cannot be serialised (cycle, freed or corrupted nodes)
+                self.pfails.append(("corrupt-result:" + op, "the result of %s cannot be serialised (%s)" % (op, r["error"]), op, args, r))
             if p_check:
                 pf = p_check(op, args, r)
                 if pf:
